@@ -31,7 +31,7 @@ import (
 
 func init() {
 	Register(&Property{ID: "C02", Run: runC02,
-		Rule: "one real engine logged on to an honest stub peer; 1-4 application sender goroutines with 1-6 SendToTarget calls each, interleaved under the seeded cooperative scheduler with engine-generated traffic on the session goroutine (TestRequest->Heartbeat, bad message->Reject, ResendRequest->replay, heartbeat timer, inbound application traffic); context-switch probability 2-50% per run; memory/file/SQL stores; persistence on/off. Invariants (i)-(v) over the store-call stream and the wire, plus porcupine on the SendToTarget history against a sequencer model; in a third of the runs the (re)logon handshake itself runs under the scheduler (both roles; ResetOnLogon, RefreshOnLogon, solicited/unsolicited ResetSeqNumFlag); peer Logout while senders are active; faults: the store refuses number-assigning writes, the simulated disk fails a write/sync inside a save (file store, also short writes); SQL statements outside transactions are scheduling points; epoch-aware judge, durable counter compared after a refresh. Non-trivial: at least two tasks were interleaved inside the send path (a context switch while another task was parked mid-send); distinct: canonical trace hash; interleavings counted as distinct context-switch sequences"})
+		Rule: "one real engine logged on to an honest stub peer; 1-4 application sender goroutines with 1-6 SendToTarget calls each, interleaved under the seeded cooperative scheduler with engine-generated traffic on the session goroutine (TestRequest->Heartbeat, bad message->Reject, ResendRequest->replay, heartbeat timer, inbound application traffic); context-switch probability 2-50% per run; memory/file/SQL stores; persistence on/off. Invariants (i)-(v) over the store-call stream and the wire, plus porcupine on the SendToTarget history against a sequencer model; in a third of the runs the (re)logon handshake itself runs under the scheduler (both roles; ResetOnLogon, RefreshOnLogon, solicited/unsolicited ResetSeqNumFlag); peer Logout while senders are active; faults: the store refuses number-assigning writes, the simulated disk fails a write/sync inside a save (file store, also short writes); SQL statements outside transactions are scheduling points; epoch-aware judge, durable counter compared after a refresh; a Logon inside the session as a stimulus; the application sending from inside FromAdmin callbacks. Non-trivial: at least two tasks were interleaved inside the send path (a context switch while another task was parked mid-send); distinct: canonical trace hash; interleavings counted as distinct context-switch sequences"})
 }
 
 type c02op struct {
